@@ -30,6 +30,9 @@ SelectNew(parents, offspring, k) == TopK(offspring \o TopK(parents, k), Len(pare
 \* DE / SHADE greedy one-to-one replacement: the trial replaces its parent iff it is not worse  (de.py:126-133)
 Replace(parents, trials) == [i \in DOMAIN parents |-> IF trials[i] <= parents[i] THEN trials[i] ELSE parents[i]]
 TrialWins(parents, trials) == {i \in DOMAIN parents : trials[i] <= parents[i]}
+\* C12 does not say who survives a tie: a replacement is acceptable iff every strictly better trial wins and no
+\* strictly worse one does (C13 additionally wants the same choice on both formulations)
+StrictWins(parents, trials) == {i \in DOMAIN parents : trials[i] < parents[i]}
 
 \* tournament of size 2 on index pairs: the winner is the better of the two (first index on a tie: argmin/argmax)
 Tournament(s, pairs) == [i \in DOMAIN pairs |-> IF s[pairs[i][2]] < s[pairs[i][1]] THEN pairs[i][2] ELSE pairs[i][1]]
@@ -63,7 +66,7 @@ Table ==
     UNION { { [op |-> "select", parents |-> p, offspring |-> o, k |-> kk, expect |-> SelectNew(p, o, kk)] :
                  p \in Pops(n), o \in Pops(n), kk \in 1..2 } : n \in 2..MaxPop }
     \cup UNION { { [op |-> "replace", parents |-> p, offspring |-> o, expect |-> Replace(p, o),
-                    wins |-> SetToSeq(TrialWins(p, o))] : p \in Pops(n), o \in Pops(n) } : n \in 2..MaxPop }
+                    wins |-> SetToSeq(TrialWins(p, o)), swins |-> SetToSeq(StrictWins(p, o))] : p \in Pops(n), o \in Pops(n) } : n \in 2..MaxPop }
     \cup UNION { { [op |-> "topk", parents |-> p, k |-> kk, expect |-> TopK(p, kk)] : p \in Pops(n), kk \in 1..n } : n \in 1..MaxPop }
     \cup { [op |-> "order", a |-> a, b |-> b, lt |-> a > b, eq |-> a = b] : a \in Ranks, b \in Ranks }
     \cup UNION { { [op |-> "tournament", parents |-> p,
